@@ -78,7 +78,11 @@ CLAIMED = {
          "operation list; the map sends a name to its last index in the current order), |scale(v) - f*v| <= 1/2, scale by 1 is the identity, "
          "a sum of n scaled values is within n/2 of the scaled sum, and every design-unit field of the OpenType text (a hand-written list) "
          "is registered with the scaler while non-length fields are not — re-proved against the attribute list REGENERATED from scaleUpem.py on "
-         "every run. Tied to the code by operation-sequence correspondence (incl. in-place permutation of the font's own list) and exact "
+         "every run. reorderGlyphs: re-sorting a Coverage by the new glyph ids together with the list parallel to it (stable sort, the length "
+         "assertion, the empty-list shortcut) keeps every glyph with its entry and leaves the coverage in glyph-id order, for any glyph "
+         "order and any lists; the rule table _REORDER_RULES, REGENERATED from reorderGlyphs.py on every run, names for every Coverage of the "
+         "OpenType text exactly the parallel array the text orders by it (hand-written list) and nothing else. Tied to the code by "
+         "operation-sequence correspondence (incl. in-place permutation of the font's own list), ReorderCoverage.apply correspondence and exact "
          "scale correspondence; reorderGlyphs / scale_upem on corpus and generated fonts are compared by glyph name through HarfBuzz (testing). "
          "F10 (MATH fields not scaled) repaired by a fix: commit.",
          "Rocq proof of the cache invariant and rounding bounds + source-regenerated field list + correspondence + HarfBuzz sweeps"),
